@@ -36,6 +36,62 @@ static void prog_cb(unsigned int num_blocks, unsigned int total_blocks, void *us
 	p->total = total_blocks;
 }
 
+// read a whole stream through a fresh decoder, `k` bytes per call
+static size_t dec_all(LHADecoder *d, uint8_t *out, size_t cap, size_t k)
+{
+	size_t n = 0, got;
+	while (n < cap && (got = lha_decoder_read(d, out + n, (cap - n) < k ? (cap - n) : k)) > 0) n += got;
+	return n;
+}
+
+// dec2 <methodA> <declenA> <hexA> <methodB> <declenB> <hexB> <k>: TWO decoder objects alive at the same time, read alternately k bytes
+// at a time (and B created while A is in mid-stream): each must deliver what it delivers alone (decoder state lives in the object)
+static int dec2_op(int argc, char **argv)
+{
+	char na[16], nb[16];
+	VhBytes ia, ib;
+	DecSrc sa, sb;
+	LHADecoderType *ta, *tb;
+	LHADecoder *da, *db;
+	uint8_t *soloA, *soloB, *outA, *outB;
+	size_t la, lb, nsa, nsb, na_ = 0, nb_ = 0, k, got;
+	int enda = 0, endb = 0;
+	if (argc != 8) return 0;
+	snprintf(na, sizeof(na), "-%s-", argv[1]); snprintf(nb, sizeof(nb), "-%s-", argv[4]);
+	ta = lha_decoder_for_name(na); tb = lha_decoder_for_name(nb);
+	if (ta == NULL || tb == NULL) return 0;
+	la = (size_t) strtoull(argv[2], NULL, 10); lb = (size_t) strtoull(argv[5], NULL, 10);
+	if (la > (1u << 22) || lb > (1u << 22)) return 0;
+	if (!vh_parse_hex(argv[3], &ia) || !vh_parse_hex(argv[6], &ib)) return 0;
+	k = (size_t) atol(argv[7]); if (k == 0) k = 1;
+	soloA = malloc(la + 1); soloB = malloc(lb + 1); outA = malloc(la + 1); outB = malloc(lb + 1);
+	sa.data = ia.data; sa.len = ia.len; sa.pos = 0; sa.chunk = 0;
+	da = lha_decoder_new(ta, dec_cb, &sa, la); nsa = dec_all(da, soloA, la, 4096); lha_decoder_free(da);
+	sb.data = ib.data; sb.len = ib.len; sb.pos = 0; sb.chunk = 0;
+	db = lha_decoder_new(tb, dec_cb, &sb, lb); nsb = dec_all(db, soloB, lb, 4096); lha_decoder_free(db);
+	// now together: A first reads a little, THEN B is created
+	sa.pos = 0; sb.pos = 0;
+	da = lha_decoder_new(ta, dec_cb, &sa, la);
+	got = lha_decoder_read(da, outA, la < k ? la : k); na_ += got; if (got == 0) enda = 1;
+	db = lha_decoder_new(tb, dec_cb, &sb, lb);
+	while (!enda || !endb) {
+		if (!endb) { got = lha_decoder_read(db, outB + nb_, (lb - nb_) < k ? (lb - nb_) : k); nb_ += got; if (got == 0) endb = 1; }
+		if (!enda) { got = lha_decoder_read(da, outA + na_, (la - na_) < k ? (la - na_) : k); na_ += got; if (got == 0) enda = 1; }
+	}
+	lha_decoder_free(da); lha_decoder_free(db);
+	if (na_ == nsa && nb_ == nsb && memcmp(outA, soloA, nsa) == 0 && memcmp(outB, soloB, nsb) == 0) {
+		vh_out("same A=%lu B=%lu", (unsigned long) nsa, (unsigned long) nsb);
+	} else {
+		size_t i = 0, j = 0;
+		while (i < na_ && i < nsa && outA[i] == soloA[i]) ++i;
+		while (j < nb_ && j < nsb && outB[j] == soloB[j]) ++j;
+		vh_out("DIFFERENT A:%lu/%lu-first-difference-at-%lu B:%lu/%lu-first-difference-at-%lu", (unsigned long) na_, (unsigned long) nsa,
+		       (unsigned long) i, (unsigned long) nb_, (unsigned long) nsb, (unsigned long) j);
+	}
+	free(soloA); free(soloB); free(outA); free(outB); free(ia.data); free(ib.data);
+	return 1;
+}
+
 // dec <method> <declared len> <chunk> <monitor-at> <schedule> <stream hex>
 int vh_ops_decoder(int argc, char **argv)
 {
@@ -49,7 +105,9 @@ int vh_ops_decoder(int argc, char **argv)
 	LHADecoderType *dtype;
 	LHADecoder *dec;
 	int overread = 0;
+	int mid_bad = 0; uint16_t mid_crc = 0, mid_got = 0, mid_want = 0; size_t mid_at = 0, mid_len = 0;
 
+	if (!strcmp(argv[0], "dec2")) return dec2_op(argc, argv);
 	if (strcmp(argv[0], "dec") || argc != 7) return 0;
 	snprintf(name, sizeof(name), "-%s-", argv[1]);
 	dtype = lha_decoder_for_name(name);
@@ -82,6 +140,18 @@ int vh_ops_decoder(int argc, char **argv)
 		}
 		memcpy(out + outlen, buf, got);
 		outlen += got;
+		{
+			// the accessors are part of the API at EVERY point, not only at the end: after each read the reported length is the
+			// number of bytes returned so far and the reported CRC is the CRC-16 of exactly those bytes (computed here bit by bit)
+			size_t j; int b;
+			for (j = 0; j < got; ++j) {
+				mid_crc ^= buf[j];
+				for (b = 0; b < 8; ++b) mid_crc = (mid_crc & 1) ? (uint16_t) ((mid_crc >> 1) ^ 0xA001) : (uint16_t) (mid_crc >> 1);
+			}
+			if (!mid_bad && (lha_decoder_get_length(dec) != outlen || lha_decoder_get_crc(dec) != mid_crc)) {
+				mid_bad = 1; mid_at = outlen; mid_len = lha_decoder_get_length(dec); mid_got = lha_decoder_get_crc(dec); mid_want = mid_crc;
+			}
+		}
 		free(buf);
 		++idx;
 		if (implicit && got == 0) break;
@@ -103,6 +173,7 @@ int vh_ops_decoder(int argc, char **argv)
 		for (i = 0; i < pl.n; ++i) vh_out("%s%u", i ? "," : "", pl.blocks[i]);
 	}
 	if (overread) vh_out(" OVERREAD");
+	if (mid_bad) vh_out(" MIDSTREAM:after-%lu-bytes-len=%lu-crc=%04x-want-%04x", (unsigned long) mid_at, (unsigned long) mid_len, mid_got, mid_want);
 	lha_decoder_free(dec);
 	free(out); free(in.data); free(sched); free(pl.blocks);
 	return 1;
